@@ -2,6 +2,8 @@ import TD.C05.LemSim
 /-! C05: the reader's constructor on an encoded file (TIF detection). -/
 namespace TD.C05
 
+variable {cfg : Cfg} [Pad0 cfg]
+
 /-- `next` word of the first TIF marker of a file -/
 def firstNext (L : Layout) : List Bytes → Nat
   | [] => 0
